@@ -1,7 +1,7 @@
 """C08 — transforms compose, invert and convert to matrices consistently."""
 import algebra as A
 from algebra import El, ZERO, ONE
-from core import (Harness, sv, sm, sq, ss, Run, Conv, run_specs, report_dropped, ret_leaves, cmp_struct, single_ret, parse_guard, is_zero_test, flat)
+from core import (Harness, sv, sm, sq, ss, Run, Conv, run_specs, report_dropped, ret_leaves, cmp_struct, single_ret, parse_guard, is_zero_test, flat, path_hyps)
 import facts
 import specs
 
@@ -134,9 +134,9 @@ def check_inverse(run, S, name, spec, kw):
         zero_g = [(g_, w) for g_, w in gs if is_zero_test(g_, s)]
         det_g = [(g_, w) for g_, w in gs if det is not None and g_['kind'] == 'eq' and (A.eq(g_['a'] - g_['b'], det) or A.eq(g_['a'] - g_['b'], -det))]
         others = [g_ for g_, w in gs if not any(g_ is z for z, _ in zero_g) and not any(g_ is z for z, _ in det_g)]
-        if others:
-            run.ob(key + ':guards', False, rule='K5 guard pass-set', expected='guards test only scale ~ 0 (and det(rot) == 0 for a matrix rotation)', found=[g_['text'][:160] for g_ in others], where=where)
-            continue
+        # any further guard is a special-case split inside the rotation / vector code: it cannot excuse a wrong
+        # None/Some classification (that is decided on the scale test alone, below), and the leaf's value is compared
+        # under the exact equalities of its own path
         scale_is_zero = None
         for g_, w in zero_g:
             scale_is_zero = (w != g_['neg'])
@@ -161,7 +161,8 @@ def check_inverse(run, S, name, spec, kw):
                 exp = rot.act(Ri, [x / s for x in v])
             else:
                 exp = dec_struct(rot, ONE / s, Ri, [-(x) / s for x in rot.act(Ri, d)])
-            cmp_struct(run, S, name, got, exp, 'K3: inverse = (1/s, R^-1, -R^-1(d)/s)' if not vecform else 'K3: R^-1(v/s)', where=where, tag='leaf%d' % li)
+            with path_hyps(S, guards if others else ()):
+                cmp_struct(run, S, name, got, exp, 'K3: inverse = (1/s, R^-1, -R^-1(d)/s)' if not vecform else 'K3: R^-1(v/s)', where=where, tag='leaf%d' % li)
         else:
             run.ob(key + ':kind', False, rule='K5', expected='Option', found=S.showval(val)[:100], where=where)
     run.ob('%s:%s:cases' % (PROP, name), seen['None'] >= 1 and seen['Some'] >= 1, rule='K5 guard pass-set', expected='both a None and a Some outcome exist', found=seen, where=where)
